@@ -37,6 +37,8 @@ def verus_fn_name(crate, fn):
     """`impl PartialOrd for CaretPos::lt` -> crate::CaretPos::lt"""
     scope, _, name = fn["fn"].rpartition("::")
     name = fn["emitted_as"]
+    if fn.get("module"):
+        crate = "%s::%s" % (crate, fn["module"])
     if not scope:
         return "%s::%s" % (crate, name)
     ty = scope.split(" for ")[-1]
